@@ -11,7 +11,7 @@ import traceback
 
 from .index import AnalysisError, Repo
 from .mutate import Skip, Variant
-from .report import Ctx, load_known
+from .report import Ctx, load_known, run_module
 
 
 def _one(args):
@@ -30,9 +30,11 @@ def _one(args):
     try:
         vrepo = Repo(root, overrides=ov)
         ctx = Ctx(prop, vrepo, "quick")
-        mod.run(ctx)
+        run_module(mod, ctx)
         known = {k["key"] for k in load_known() if k.get("property") == prop and k.get("state") == "known"}
         failed = sorted({o.oid for o in ctx.failed() if o.key not in known})
+        if not failed and ctx.aborted:
+            raise AnalysisError(ctx.aborted)
         if not failed and ctx.floor_failures:
             raise AnalysisError("; ".join(ctx.floor_failures))
     except AnalysisError as e:
